@@ -75,7 +75,7 @@ def spec(tier, seed, repo):
              "non-trivial when at least one judged run was executed; distinct = (target, mutation) pairs of the case. "
              "A mutation whose text equals the original is skipped and counted (skipped_equal_text).",
         assumptions=[
-            "catalogue (dlog): +1, other member / other residue, +q, +p, (-1)*v mod p, delete [quick]; thorough adds -v, 0, 1, "
+            "catalogue (dlog): +1, other member / other residue, +q, +p, (-1)*v mod p, -v, delete [quick]; thorough adds 0, 1, "
             "p-1, p, q, v+2^4096, drop last character, swap with next line, empty line; v-q is not in the catalogue",
             "catalogue (QR): +1 (flip for parity bits), 2v mod m, 0, 1, delete, truncate, swap, empty; -v, m-v, v+m, m are "
             "executed and recorded (equiv_executed/equiv_accepted), not judged: same square / same residue",
@@ -90,9 +90,12 @@ def spec(tier, seed, repo):
             "text after the last delimiter of a structured record (sts^..^x, crs|r|x) is an equivalent representation",
             "acceptance probabilities inherent to the protocols (2^-l_e challenges) are ignored; cut-and-choose public "
             "inputs are judged only in rounds whose challenge selects them (coins scripted)",
-            "quick: n=3; sized protocols in one parameter world (rotating with seed), the others in all four; structured "
-            "fields of the cut-and-choose stack secrets and of the Rabin key text are sampled (every third (field, "
-            "mutation) pair); thorough: n in {2,3,8}, full catalogue, all worlds + sampled default sizes",
+            "quick: n=3; sized protocols in one parameter world (rotating with seed) with the 7-mutation catalogue and "
+            "additionally in the GroupQR world with the range class (+q, +p) only (|q| = |p|-1 there, so a missing range "
+            "check is visible at every position; elsewhere v+q often overflows the |q|-bit fixed-base tables and is "
+            "refused by accident); the other protocols in all four worlds; structured fields of the cut-and-choose stack "
+            "secrets and of the Rabin key text are sampled (every third / ninth (field, mutation) pair, +q never "
+            "sampled away); thorough: n in {2,3,8}, full catalogue, all worlds + sampled default sizes",
         ],
         floors=floors,
     )
